@@ -73,7 +73,10 @@ func (grw *GzipResponseWriter) WriteHeader(code int) {
 		return
 	}
 	if grw.writer == nil {
-		if isCompressable(grw.Header(), grw.contentTypes) {
+		// A response without a body (204, 304) has nothing to compress and
+		// the server refuses the gzip stream written on Close: it must not
+		// be labelled as compressed.
+		if bodyAllowedForStatus(code) && isCompressable(grw.Header(), grw.contentTypes) {
 			grw.Header().Del(headerContentLength)
 			grw.Header().Set(headerContentEncoding, encodingGzip)
 			grw.gzipWriter = gzipWriterPool.Get().(*gzip.Writer)
@@ -110,6 +113,12 @@ func (grw *GzipResponseWriter) Hijack() (net.Conn, *bufio.ReadWriter, error) {
 		return hj.Hijack()
 	}
 	return nil, nil, errors.New("not a Hijacker")
+}
+
+// bodyAllowedForStatus reports whether a response with the given final
+// status code may have a body (RFC 9110, section 6.4.1).
+func bodyAllowedForStatus(code int) bool {
+	return code != http.StatusNoContent && code != http.StatusNotModified
 }
 
 func isCompressable(header http.Header, contentTypes *regexp.Regexp) bool {
